@@ -85,7 +85,7 @@ fn rac_lhs_frontend() {
 // blocks, blank lines in front of and between chunks); the Word tokens are exactly the declared words at their declared character offsets.
 #[test]
 fn rac_lhs_prose_offsets() {
-    let segs: [(&str, &[&str]); 9] = [
+    let segs: [(&str, &[&str]); 12] = [
         ("Alpha beta\n", &["Alpha", "beta"]),
         ("\n", &[]),
         ("\n> main = print \"strïng 😀\"\n\n", &[]),
@@ -95,6 +95,10 @@ fn rac_lhs_prose_offsets() {
         ("The naïve closing words.\n", &["The", "naïve", "closing", "words"]),
         ("\n> y = 2\n> z = \"wörd\"\n\n", &[]),
         ("  indented prose here\n", &["indented", "prose", "here"]),
+        // fence lines with trailing blanks / CR, and a bird block closed by a line that holds only blanks
+        ("\\begin{code}  \nq = 1\n\\end{code} \n", &[]),
+        ("\\begin{code}\r\nq = \"wörd\"\r\n\\end{code}\r\n", &[]),
+        ("\n> w = 3\n   \n", &[]),
     ];
     let parser = LiterateHaskellParser::new_markdown(MarkdownOptions::default());
     let mut combos: Vec<Vec<usize>> = vec![vec![]];
@@ -144,5 +148,5 @@ fn rac_lhs_prose_offsets() {
         }
     }
     println!("RAC-SAMPLE lhs_prose_offsets {{\"file\": {:?}, \"prose_words\": [\"Alpha\", \"beta\", \"Gamma\", \"é\", \"delta\"]}}", "Alpha beta\n> y = 2\n\nGamma é😀 delta\n");
-    println!("RAC-OK lhs_prose_offsets cases={} nontrivial={} bound=<=4-of-9-segments-with-known-prose-words", cases, nontrivial);
+    println!("RAC-OK lhs_prose_offsets cases={} nontrivial={} bound=<=4-of-12-segments-with-known-prose-words", cases, nontrivial);
 }
